@@ -103,6 +103,7 @@ pub fn gen(rng: &mut Rng) -> ConcCase {
     let threads = rng.range(1, 16) as usize;
     let mut k = crate::gen::Knobs::functional();
     k.long_pct = 0;
+    k.mib_frames = false; // every write call is a baton round trip, and some sinks take 2..4 bytes per call
     k.short_max = 6;
     k.invalid_pct = 10;
     k.after_finish_pct = 30;
@@ -137,6 +138,7 @@ pub fn gen(rng: &mut Rng) -> ConcCase {
         // static, a cache) must not show in muxer 1.
         let mut kk = crate::gen::Knobs::functional();
         kk.long_pct = 0;
+        kk.mib_frames = false;
         kk.short_max = 6;
         kk.audio_pct = 100;
         kk.enc_api_pct = 0;
